@@ -6,18 +6,42 @@ ASSUMPTIONS = []
 EXPLANATION = ""
 
 _FP_FILE = {"write_at": "c14_write_at", "get_size": "c14_get_size",
-            "truncate": "c14_truncate"}
+            "truncate": "c14_truncate", "read_at": "c14_read_at"}
 
 HARNESSES = [
     dict(name="init_unreadable", file="init_unreadable.c", label="proved",
          fp={"write_at": "iu_write_at", "read_at": "iu_read_at"},
          unwind=22, timeout=300,
          cases=[dict(id="all", tier="quick")]),
+    dict(name="finish", file="finish.c", label="proved",
+         fp=dict(_FP_FILE, get_block_count="c14_get_block_count"),
+         timeout=600, cases=[dict(id="all", tier="quick")]),
     dict(name="ao_write_block", file="ao_write_block.c", label="proved",
          fp=dict(_FP_FILE, do_block="c14_do_block", destroy="c14_obj_destroy"),
          timeout=300, cases=[dict(id="all", tier="quick")]),
     dict(name="ao_write_table", file="ao_write_table.c", label="proved",
          loops=["sqfs_write_table"],
          fp=dict(_FP_FILE, destroy="mw_destroy"),
+         timeout=600, cases=[dict(id="all", tier="quick")]),
+    dict(name="ao_write_options", file="ao_write_options.c", label="proved",
+         fp=dict(_FP_FILE, **{"*": "c14_comp_create"}),
+         timeout=300, cases=[dict(id="all", tier="quick")]),
+    dict(name="ao_xattr_loctable", file="ao_xattr_loctable.c", label="proved",
+         fp=dict(_FP_FILE, destroy="c14_obj_destroy"),
+         timeout=300, cases=[dict(id="all", tier="quick")]),
+    dict(name="xattr_flush", file="xattr_flush.c", label="proved",
+         mode="dfcc", replace=["write_kv_pairs", "write_id_table", "alloc_location_table"],
+         loops=["sqfs_xattr_writer_flush"], native=False,
+         # cbmc --cover cannot see __CPROVER_cover calls after --dfcc (they get
+         # a write-set argument); reachability of the branches is demonstrated
+         # by the self-test mutants instead
+         cover=False,
+         must_have=["C14.append_only.xattr_flush", "C14.xattr_flush.start_inside",
+                    "C14.xattr_flush.empty_is_absent"],
+         fp=dict(_FP_FILE, destroy="mw_destroy"),
+         timeout=600, cases=[dict(id="all", tier="quick")]),
+    dict(name="ao_block_writer", file="ao_block_writer.c", label="proved",
+         loops=["deduplicate_blocks"],
+         fp=dict(_FP_FILE, destroy="c14_obj_destroy"),
          timeout=600, cases=[dict(id="all", tier="quick")]),
 ]
